@@ -1,12 +1,14 @@
 """C04 — No invalid, forbidden or out-of-limit request ever reaches the driver.
 
-Generated module classes (type() over random parameter/command sets, two class layers so that check_ hooks chain
-along the MRO, Limit parameters, flags, export settings, cfg overrides) on a real SecNode + Dispatcher; request
+Generated module classes (type() over random parameter/command sets, hierarchies of 2-4 classes with plain mixins so that
+check_ hooks and the automatic limit check chain along the MRO, Limit parameters introduced by any class, flags, export
+settings, cfg overrides incl. initial limits) on a real SecNode + Dispatcher; request
 histories with scripted recording drivers.  The datatype layer is an ORACLE for the Lean model: the real datatype
 methods are run here and their results are sent as tables; every decision is taken by the model / the monitors.
 The node generator and the node -> JSON canonicaliser are shared with C06 (props/c06.py imports them).
 
-Streams of one run (all judged by the Lean side): (1) sequential histories (`run_case`); (2) `run_concurrent`: a change racing
+Streams of one run (all judged by the Lean side): (1) sequential histories (`run_case`); (2) `run_concurrent`: a value on its
+way to write_target (by a change request, by a do request whose command forwards to the wrapper, by module code) racing
 a thread that moves the dynamic limit (lock discipline of the wrappers); (3) `run_merging`: 2-3 threads changing / polling /
 writing ONE struct parameter (the value given to the driver is the payload merged into the value cached at that moment);
 (4) `run_shared`: generated histories served to 2-3 connections at once (requests handled one at a time, sequential model
@@ -34,9 +36,17 @@ META = {
                   'payload merged into the value cached at the moment of the call), requests_one_at_a_time, '
                   'change_exactly_validated (for datatypes of the C01 model the driver gets exactly acceptWire dt j (some current); '
                   'the idempotence assumption is discharged by C01 revalidate_unchanged). '
+                  'The chain of check functions is computed by the model from the class layout (chainOf = HasAccessibles.__init_subclass__ '
+                  '156-172 over the classes of the MRO): chain_layout_iff (a value passes it iff every programmer\'s hook before the first '
+                  'that takes over passes and - whenever the automatic limit check applies, C18 AutoApplies - the dynamic limits hold), '
+                  'layout_change_calls_iff, limits_not_switched_off (an inherited hook never switches the limits off), fitting_limits_layout, '
+                  'layout_histories (along every history), merge_clause_needs_no_request_lock (the merge clause rests on accessLock alone), '
+                  'wf_of_wfB (Node.WF is decided by the driver for every generated node). '
                   'The model is tied to dispatcher.py / modulebase.py / params.py by a correspondence run on the real '
                   'dispatcher with recording drivers (sequentially, with 2-3 connections at once under a deterministic scheduler, and as '
-                  'request lines through the real TCPRequestHandler / handler.py), and the Lean monitors judge every implementation exchange.',
+                  'request lines through the real TCPRequestHandler / handler.py) on generated class hierarchies of 2-4 classes with plain '
+                  'mixins (the chain the model computes is also compared with the check_funcs of the real write wrapper), and the Lean '
+                  'monitors judge every implementation exchange.',
     'level_note': 'Trusted: Lean kernel + axioms; for the ten SECoP datatype kinds the value accepted from the wire is recomputed '
                   'by the C01 datatype model (acceptWire) in the Lean judge - change payloads against the cached value, command arguments, '
                   'and under concurrency against the value cached at the moment of the driver call - and the implementation must agree; export_value, '
@@ -55,7 +65,11 @@ META = {
         'call: AccessLock.lean; merge into the current value + call: ChangeSection.lean) are small-step systems tied to the '
         'real code by replaying its events',
         'time stamps and the omit_unchanged_within window (C05)',
-        'Python MRO resolution producing the check_<param> chain (taken from the real class as data)',
+        'the MRO of a generated module class (C3 linearisation) is read from the real class; which class body declares which Limit '
+        'parameter / check_ hook is read from the plain-data spec the classes were generated from (cross-checked against the class '
+        'dicts); classes of shipped configurations (C06) still hand their check chain over as data',
+        'a command function forwarding to write_<p> (the do-request road to the write wrapper) is exercised in the concurrent '
+        'scenario and judged by callWithinLimitsB, it is not part of the sequential model',
     ],
     'assumptions': [
         'wire names of a module are pairwise distinct and predefined names are used for their own kind (Node.WF)',
@@ -307,21 +321,54 @@ def gen_param(rng, attr, numeric=False):
 
 
 def gen_modspec(rng, name, big):
+    """the module class as plain data.  `layers`: the classes of the hierarchy, BASE FIRST (layers[-1] is the module class,
+    layers[0] derives from the frappy base class); a layer marked `mixin` is a plain class (not a HasAccessibles) holding
+    Limit parameters and check_ hooks only, mixed into the next class of the chain (MRO: ... L[i+1], L[i] (mixin), L[i-1] ...).
+    Parameters, their Limit parameters and the check_ hooks on them are spread over the layers independently: limits are
+    introduced by the class of the parameter or by any class derived from it (also by one that merely inherits a hook),
+    hooks are defined by any class from the parameter's class upwards - several per parameter chain along the MRO."""
     base = rng.choice(BASES)
-    layers = [{'params': [], 'commands': [], 'hooks': []}, {'params': [], 'commands': [], 'hooks': []}]
+    nlayers = rng.choice([2, 2, 2, 3, 3, 4])
+    layers = [{'params': [], 'commands': [], 'hooks': []} for _ in range(nlayers)]
+    for i in range(1, nlayers - 1):
+        if rng.random() < 0.35:
+            layers[i]['mixin'] = True
+    full = [i for i in range(nlayers) if not layers[i].get('mixin')]      # classes that may hold anything
     names = ['p%d' % i for i in range(1, 8)] + PREDEF_PARAM_NAMES
     rng.shuffle(names)
     nparams = rng.randint(1, 6 if big else 4)
     custom_pool = ['xq1', 'xq2', '_yy', 'zed', 'value2', '_w']
     rng.shuffle(custom_pool)
     all_params = []
+
+    def limit_layer(lp):
+        """the class introducing a limit parameter: the class of the parameter, or any class above it"""
+        return lp if rng.random() < 0.5 else rng.randrange(lp, nlayers)
+
+    def add_limit(lim, lp):
+        """declare the limit parameter; now and then a derived class declares it AGAIN (`<p>_max = Limit()` overriding the
+        inherited one): the automatic check belongs to the class that defined it FIRST"""
+        ll = limit_layer(lp)
+        layers[ll]['params'].append(lim)
+        above = [i for i in full if i > ll]
+        r = rng.random()
+        if above and r < 0.15:
+            layers[rng.choice(above)]['params'].append(dict(lim, has_write=False, redeclared=True))
+        elif above and r < 0.23 and not layers[ll].get('mixin'):
+            # (not for a limit declared by a plain mixin: frappy attaches the automatic check when the first HasAccessibles
+            # class using the mixin is created - if that very class removes the limit again, no check is ever attached;
+            # the model attaches it to the declaring class.  No behaviour differs: the module has no such limit.)
+            # a derived class REMOVES the inherited limit parameter (`<p>_max = None`, the way frappy removes an inherited
+            # accessible): the module has no such limit any more
+            layers[rng.choice(above)]['params'].append({'attr': lim['attr'], 'limit': lim['limit'], 'removed': True})
+
     for i in range(nparams):
         attr = names.pop()
         numeric = rng.random() < 0.5
         p = gen_param(rng, attr, numeric)
         if p['export'] == 'custom':
             p['export'] = custom_pool.pop()
-        layer = rng.choice([0, 0, 1])
+        layer = rng.choice(full[:-1] + full[:1] if len(full) > 1 else full) if rng.random() < 0.7 else rng.choice(full)
         layers[layer]['params'].append(p)
         all_params.append((layer, p))
         if numeric and rng.random() < 0.7 and not p['constant']:
@@ -330,24 +377,32 @@ def gen_modspec(rng, name, big):
                 # (Limit(export=False) cannot be declared: Limit.__set_name__ calls export.startswith)
                 lim = {'attr': attr + '_' + lk, 'limit': attr, 'export': True,
                        'readonly': rng.random() < 0.1, 'has_write': rng.random() < 0.3, 'has_read': False}
-                layers[layer if rng.random() < 0.7 else 1]['params'].append(lim)
+                add_limit(lim, layer)
+    # a derived class removes an inherited parameter altogether (`<p> = None`): requests for it must meet NoSuchParameter,
+    # whatever read_/write_/check_ methods and limit parameters the base classes still carry for it
+    with_limits = {q['limit'] for l in layers for q in l['params'] if q.get('limit')}   # (frappy refuses a limit without its parameter)
+    for layer, p in list(all_params):
+        above = [i for i in full if i > layer]
+        if 'readonly' in p and p['attr'] not in with_limits and above and rng.random() < 0.06:
+            layers[rng.choice(above)]['params'].append({'attr': p['attr'], 'limit': None, 'removed': True})
     if base in ('Writable', 'Drivable'):
         # target of the base class: give it a driver and limits
-        tl = rng.choice([0, 1])
+        tl = rng.choice(full)
         if rng.random() < 0.8:
             layers[tl]['params'].append({'attr': 'target', 'override': True, 'has_write': rng.random() < 0.85,
                                          'has_read': rng.random() < 0.3})
-            for lk in rng.choice([['min', 'max'], ['limits'], ['max'], []]):
-                layers[tl if rng.random() < 0.7 else 1]['params'].append(
-                    {'attr': 'target_' + lk, 'limit': 'target', 'export': True, 'readonly': False,
-                     'has_write': rng.random() < 0.3, 'has_read': False})
-            all_params.append((tl, {'attr': 'target', 'dt': ['floatr', 0, 100]}))
+            for lk in rng.choice([['min', 'max'], ['limits'], ['max'], ['min', 'max', 'limits'], []]):
+                add_limit({'attr': 'target_' + lk, 'limit': 'target', 'export': True, 'readonly': False,
+                           'has_write': rng.random() < 0.3, 'has_read': False}, tl)
+            # (`target` exists in the frappy base class: a hook on it may sit in ANY class of the hierarchy)
+            all_params.append((0, {'attr': 'target', 'dt': ['floatr', 0, 100]}))
     if base == 'Readable' and rng.random() < 0.5:
-        layers[rng.choice([0, 1])]['params'].append({'attr': 'value', 'override': True, 'has_write': False, 'has_read': True})
-    # hooks: on parameters of either layer, defined in either layer (a hook in layer 1 on a param of layer 0 chains)
+        layers[rng.choice(full)]['params'].append({'attr': 'value', 'override': True, 'has_write': False, 'has_read': True})
+    # hooks: on parameters of any layer, defined in that layer or any layer above (hooks of several classes chain)
+    limited_heads = {q['limit'] for l in layers for q in l['params'] if q.get('limit')}
     for layer, p in all_params:
-        for hl in range(layer, 2):
-            if rng.random() < 0.3:
+        for hl in range(layer, nlayers):
+            if rng.random() < (0.3 if nlayers == 2 or p['attr'] in limited_heads else 0.2):
                 layers[hl]['hooks'].append({'attr': p['attr'], 'kind': rng.choice(HOOK_KINDS)})
     # commands
     cnames = ['c1', 'c2', 'stop', 'reset', 'go']
@@ -369,14 +424,15 @@ def gen_modspec(rng, name, big):
         export = rng.choices([True, False, 'custom'], [0.83, 0.07, 0.1])[0]
         if export == 'custom':
             export = custom_pool.pop()
-        layers[rng.choice([0, 1])]['commands'].append({'attr': cn, 'arg': arg, 'res': res, 'export': export})
+        layers[rng.choice(full)]['commands'].append({'attr': cn, 'arg': arg, 'res': res, 'export': export})
     if base == 'Drivable' and not any(c['attr'] == 'stop' for l in layers for c in l['commands']):
         # the inherited no-op stop() is not a recording driver: override it
         layers[0]['commands'].append({'attr': 'stop', 'arg': None, 'res': None, 'export': True})
     # configuration overrides
     cfg = {}
+    gone = {q['attr'] for l in layers for q in l['params'] if q.get('removed')}
     for layer, p in all_params:
-        if 'readonly' not in p:
+        if 'readonly' not in p or p['attr'] in gone:
             continue
         r = rng.random()
         if r < 0.08:
@@ -387,6 +443,20 @@ def gen_modspec(rng, name, big):
             cfg[p['attr']] = {'readonly': not p['readonly']}
         elif r < 0.26 and p['export'] is False:
             cfg[p['attr']] = {'export': True}
+    # the configuration gives limit parameters their initial value (the usual way limits are set in the field): already
+    # the first request meets limits narrower than the range of the datatype
+    heads = {p['attr']: p['dt'] for _, p in all_params}
+    removed = {q['attr'] for l in layers for q in l['params'] if q.get('removed')}
+    for layer in layers:
+        for p in layer['params']:
+            dts = heads.get(p.get('limit'))
+            if dts is None or p.get('redeclared') or p.get('removed') or p['attr'] in removed or rng.random() >= 0.3:
+                continue
+
+            def pyval():
+                w = gen_valid(rng, dts)
+                return dts[1] * w if dts[0] == 'scaled' else w
+            cfg[p['attr']] = {'value': sorted([pyval(), pyval()]) if p['attr'].endswith('_limits') else pyval()}
     # feature mixins: 'FeatA' = direct Feature subclass (reported), 'FeatSub' = subclass of one (itself not a feature)
     feats = rng.choice([[], [], [], ['FeatA'], ['FeatB', 'FeatA'], ['FeatSub'], ['FeatSub', 'FeatB']])
     return {'name': name, 'base': base, 'exported': rng.random() < 0.8, 'layers': layers, 'cfg': cfg, 'features': feats}
@@ -412,6 +482,7 @@ class Box:
         self.rng = random.Random(0)
         self.hooks = {}        # id -> (kind)
         self.dtspecs = {}      # (classname, attr) -> dtspec for result generation
+        self.layerspec = {}    # generated class -> the layer (plain data) it was made from
 
 
 def hook_result(kind, value):
@@ -469,6 +540,10 @@ def mk_layer_class(box, clsname, bases, layer, known):
     attrs = {'__module__': 'verifgen'}
     for p in layer['params']:
         a = p['attr']
+        if p.get('removed'):
+            attrs[a] = None          # removes the inherited accessible (HasAccessibles.__init_subclass__)
+            known.pop(a, None)
+            continue
         if p.get('limit'):
             kw = {}
             if p['export'] is not True:
@@ -588,8 +663,20 @@ def build_node(nodespec):
         base = getattr(fm, ms['base'])
         known = {}
         mixins = tuple(feature_class(f) for f in ms.get('features', []))
-        c0 = mk_layer_class(box, 'GenA%d' % _clscount[0], mixins + (base,), ms['layers'][0], known)
-        c1 = mk_layer_class(box, 'GenB%d' % _clscount[0], (c0,), ms['layers'][1], known)
+        cls = None
+        pending = []      # plain mixins, combined by the next class towards the module class (the later one first in the MRO)
+        for i, layer in enumerate(ms['layers']):
+            cname = 'Gen%s%d' % (chr(ord('A') + i), _clscount[0])
+            if layer.get('mixin'):
+                c = mk_layer_class(box, cname, (), layer, known)
+                pending.insert(0, c)
+            else:
+                c = mk_layer_class(box, cname, tuple(pending) + ((mixins + (base,)) if cls is None else (cls,)), layer, known)
+                pending = []
+                cls = c
+            box.layerspec[c] = layer
+        assert not pending, 'the module class itself is not a mixin'
+        c1 = cls
         classes[ms['name']] = c1
         mcfg = {'cls': c1, 'description': 'generated module ' + ms['name']}
         if not ms['exported']:
@@ -621,14 +708,68 @@ def export_setting(ms_index, attr, cls_aobj, cfgover):
 
 
 def check_chain(mycls, attr):
+    """the check functions found in the class dicts along the MRO (used where no class layout is known: shipped classes)"""
     chain = []
-    for b in mycls.__mro__:
+    for pos, b in enumerate(mycls.__mro__):
         f = b.__dict__.get('check_' + attr)
         if f is None:
             continue
         hid = getattr(f, '_hook_id', None)
         if hid is not None:
-            chain.append(hid)
+            chain.append(pos)      # a programmer's hook is identified by the MRO position of its class
+        elif getattr(f, '__name__', '') == '<lambda>':
+            chain.append('limits')
+        else:
+            chain.append('foreign:' + getattr(f, '__qualname__', '?'))
+    return chain
+
+
+def class_layout(box, mycls, attr):
+    """the class layout of parameter `attr` AS THE PROGRAMMER WROTE IT (one entry per class of the MRO, most derived first):
+    [declares <attr>_min, declares <attr>_max, declares <attr>_limits, defines check_<attr>] - taken from the plain-data
+    spec the generated classes were made from, never from what HasAccessibles.__init_subclass__ left in the class dicts
+    (it attaches the automatic limit check there: that is the code under test)."""
+    from frappy.params import Limit
+    layout = []
+    for b in mycls.__mro__:
+        lay = box.layerspec.get(b)
+        if lay is not None:
+            decl = [any(p['attr'] == attr + '_' + k and p.get('limit') and not p.get('removed') for p in lay['params'])
+                    for k in ('min', 'max', 'limits')]
+            own = any(h['attr'] == attr for h in lay['hooks'])
+            # the class body was made from this very spec (self-check of the harness, independent of the code under test:
+            # __init_subclass__ may copy accessibles into derived classes and attach the automatic check, it never removes)
+            for k, d in zip(('min', 'max', 'limits'), decl):
+                if d and not isinstance(b.__dict__.get(attr + '_' + k), Limit):
+                    raise RuntimeError('class %s was generated with %s_%s but does not hold it' % (b.__name__, attr, k))
+            if own and getattr(b.__dict__.get('check_' + attr), '_hook_id', None) is None:
+                raise RuntimeError('class %s was generated with check_%s but does not hold it' % (b.__name__, attr))
+        else:
+            # classes of frappy itself / feature mixins: their own bodies
+            decl = [isinstance(b.__dict__.get(attr + '_' + k), Limit) for k in ('min', 'max', 'limits')]
+            f = b.__dict__.get('check_' + attr)
+            own = f is not None and getattr(f, '__name__', '') != '<lambda>'
+            if own:
+                raise RuntimeError('class %s defines check_%s: no oracle for a hook of a shipped class' % (b.__name__, attr))
+        layout.append(decl + [own])
+    return layout
+
+
+def impl_chain(modobj, mycls, attr):
+    """the check functions the generated write wrapper of the REAL class runs (its `check_funcs`), in the model's terms:
+    'limits' for the automatic checkLimits call, the MRO position of the defining class for a programmer's hook"""
+    w = getattr(type(modobj), 'write_' + attr, None)
+    funcs = None
+    for d in (getattr(w, '__defaults__', None) or ()):
+        if isinstance(d, tuple):
+            funcs = d
+    if funcs is None:
+        return None
+    chain = []
+    for f in funcs:
+        if getattr(f, '_hook_id', None) is not None:
+            pos = [i for i, b in enumerate(mycls.__mro__) if b.__dict__.get('check_' + attr) is f]
+            chain.append(pos[0] if pos else 'unplaced-hook')
         elif getattr(f, '__name__', '') == '<lambda>':
             chain.append('limits')
         else:
@@ -665,7 +806,7 @@ def datainfo_validate(dt):
     return dt.validate
 
 
-def node_json(node, nodespec=None, classes=None):
+def node_json(node, nodespec=None, classes=None, box=None):
     from frappy.params import Parameter, Command, Limit
     mods = []
     specs = {ms['name']: ms for ms in (nodespec or {'modules': []})['modules']}
@@ -696,7 +837,9 @@ def node_json(node, nodespec=None, classes=None):
                     'readonly': bool(aobj.readonly),
                     'constant': None if aobj.constant is None else canon(aobj.constant),
                     'value': canon(aobj.value), 'readerror': readerror_json(aobj),
-                    'checks': check_chain(mycls, attr) if ms is not None else [],
+                    'checks': check_chain(mycls, attr) if ms is not None and box is None else [],
+                    **({'layers': class_layout(box, mycls, attr), 'implChain': impl_chain(modobj, mycls, attr)}
+                       if ms is not None and box is not None else {}),
                     'hasRead': getattr(mycls, 'read_' + attr, None) is not None,
                     'hasWrite': getattr(mycls, 'write_' + attr, None) is not None,
                     'datainfo': canonj(aobj.datatype.export_datatype()),
@@ -742,6 +885,8 @@ def spec_index(nodespec):
         for layer in ms['layers']:
             for p in layer['params']:
                 a = p['attr']
+                if p.get('redeclared') or p.get('removed'):
+                    continue
                 if p.get('limit'):
                     base = known.get(p['limit'])
                     known[a] = None if base is None else (['tuple', [base, base]] if a.endswith('_limits') else base)
@@ -948,12 +1093,13 @@ def param_oracle(orc, box, modobj, mycls, attr, pobj, payload, kind, raws):
             orc.put('reval', [m, attr, canon(v)], orc.res(r2))
             if r2[0] == 'ok':
                 exp_safe(r2[1])
-            for b in mycls.__mro__:
+            for pos, b in enumerate(mycls.__mro__):
+                # a programmer's hook is identified by the MRO position of the class defining it
                 f = b.__dict__.get('check_' + attr)
                 hid = getattr(f, '_hook_id', None)
                 if hid is not None:
                     hr = hook_result(box.hooks[hid], v)
-                    orc.put('chk', [m, attr, hid, canon(v)], hr if isinstance(hr, str) else ['raise'] + err_of(hr))
+                    orc.put('chk', [m, attr, pos, canon(v)], hr if isinstance(hr, str) else ['raise'] + err_of(hr))
             lims = []
             for post in ('_limits', '_min', '_max'):
                 lp = modobj.parameters.get(attr + post)
@@ -1055,16 +1201,23 @@ class Session:
 
     def __init__(self, nodespec):
         self.nodespec = nodespec
-        self.node, self.box, self.classes = build_node(nodespec)
-        node = self.node
         self.errors = []
+        try:
+            self.node, self.box, self.classes = build_node(nodespec)
+        except Exception as e:      # frappy refuses the class itself (ProgrammingError at class creation)
+            from frappy.errors import ProgrammingError, ConfigError
+            if not isinstance(e, (ProgrammingError, ConfigError)):
+                raise
+            self.errors = ['class creation: %r' % e]
+            return
+        node = self.node
         if node.errors or set(node.secnode.modules) != {ms['name'] for ms in nodespec['modules']}:
             self.errors = list(node.errors) or ['module missing']
             return
         self.conn = node.connect()            # receives the updates (activated)
         node.request(self.conn, 'activate', None, None)
         self.conn.msgs.clear()
-        self.nj = node_json(node, nodespec, self.classes)
+        self.nj = node_json(node, nodespec, self.classes, self.box)
         self.orc = Oracle()
         self.out_steps = []
 
@@ -1247,17 +1400,24 @@ class RecLock:
 
 
 def conc_run(case, policy):
-    """one schedule of: thread 1 = `change m:target v` (twice), thread 2 = moves target_max (driver-side read of a new
-    hardware limit / write_target_max / a change request).  Real SecNode + Dispatcher + wrappers under vlib.sched."""
+    """one schedule of: thread 1 = brings a value to write_target (once or twice), thread 2 = moves target_max (driver-side
+    read of a new hardware limit / write_target_max / a change request).  Real SecNode + Dispatcher + wrappers under vlib.sched.
+    Thread 1 reaches the write wrapper in every way the code offers (case['via'], per value):
+      'change'  `change m:target v`  - the dispatcher validates and calls the wrapper (holding accessLock itself)
+      'do'      `do m:go v`          - a command function that forwards to self.write_target(v), the usual way a command
+                                       drives a module: the WRAPPER is the only guard between the request and the driver
+      'direct'  module code (another module, a poller) calls write_target(v)"""
     import frappy.modulebase
     import frappy.protocol.dispatcher
     from frappy.modules import Module
-    from frappy.params import Parameter, Limit
+    from frappy.params import Parameter, Limit, Command
     from frappy.datatypes import FloatRange
     from vlib.node import Node
     from vlib.sched import Scheduler
     s = Scheduler(policy=policy, max_steps=4000)
     events, calls, replies = [], [], []
+    via = case.get('via') or ['change'] * len(case['values'])
+    cur = {'how': None}      # how the value now on its way to write_target came in
 
     def tid():
         me = s.me()
@@ -1283,8 +1443,13 @@ def conc_run(case, policy):
 
             def write_target(self, value):
                 events.append(['call', tid(), int(value)])
-                calls.append((value, self.target_max))
+                calls.append((value, self.target_max, cur['how']))
                 return value
+
+            @Command(FloatRange(0, 1000))
+            def go(self, value):
+                """drive to value"""
+                self.write_target(value)
         node = Node({'m': {'cls': CM, 'description': 'm', 'target_max': {'value': float(case['max0'])}}},
                     omit_unchanged_within=0)
         mo = node.modules['m']
@@ -1293,8 +1458,16 @@ def conc_run(case, policy):
         c1, c2 = node.connect(), node.connect()
 
         def requester():
-            for v in case['values']:
-                replies.append(reply_obs(node.request(c1, 'change', 'm:target', v)))
+            for v, how in zip(case['values'], via):
+                cur['how'] = how
+                if how == 'direct':
+                    try:
+                        mo.write_target(float(v))
+                        replies.append(['direct', 'ok'])
+                    except Exception as e:
+                        replies.append(['direct', type(e).__name__])
+                else:
+                    replies.append(reply_obs(node.request(c1, how, 'm:target' if how == 'change' else 'm:go', v)))
             s.yield_(('end',))
 
         def mover():
@@ -1321,14 +1494,14 @@ def conc_run(case, policy):
     registry = logging.Logger.manager.loggerDict
     for k in [k for k in registry if k == node.root.name or k.startswith(node.root.name + '.')]:
         del registry[k]
-    return s, {'events': events, 'calls': calls, 'replies': replies, 'result': result, 'node': nj}
+    return s, {'events': events, 'calls': calls, 'replies': replies, 'result': result, 'node': nj, 'via': via}
 
 
 def conc_requests(case, obs):
     """driver requests for one run: the event sequence on the lock-discipline system + every driver call against the
     limits of its moment"""
     reqs = [{'p': PID, 'k': 'lockrun', 'max': int(case['max0']), 'acts': obs['events']}]
-    for v, lim in obs['calls']:
+    for v, lim, _ in obs['calls']:
         nj = json.loads(json.dumps(obs['node']))
         for a in nj['modules'][0]['accs']:
             if a['attr'] == 'target_max':
@@ -1344,7 +1517,8 @@ def gen_conc_case(rng):
     values = [rng.choice([max0 - 10, max0, max0 // 2, max0 + 5]) for _ in range(rng.choice([1, 2]))]
     moves = [[rng.choice(['read', 'read', 'write', 'change']), rng.choice([max0 // 4, max0 - 20, max0 + 100, 1])]
              for _ in range(rng.choice([1, 1, 2]))]
-    return {'max0': max0, 'values': values, 'moves': moves}
+    via = [rng.choice(['change', 'change', 'do', 'do', 'direct']) for _ in values]
+    return {'max0': max0, 'values': values, 'moves': moves, 'via': via}
 
 
 def conc_verdict(obs, ans):
@@ -1352,11 +1526,13 @@ def conc_verdict(obs, ans):
     for a in ans:
         if 'driver_error' in a:
             raise RuntimeError('driver error: %s' % a['driver_error'])
-    for (v, lim), a in zip(obs['calls'], ans[1:]):
+    for (v, lim, how), a in zip(obs['calls'], ans[1:]):
         if not a['ok']:
-            return ('C04:concurrent:call-outside-current-limits',
+            came = {'change': 'a change request', 'do': 'a do request (command forwarding to write_target)',
+                    'direct': 'module code calling write_target'}.get(how, how)
+            return ('C04:concurrent:call-outside-current-limits:via-%s' % how,
                     f'write_target({v}) was called while target_max was {lim} (moved by another thread between check and call); '
-                    f'replies {obs["replies"]}')
+                    f'the value came by {came}; replies {obs["replies"]}')
     if not ans[0]['ok']:
         return ('C04:concurrent:lock-discipline',
                 f'the wrappers\' events are not a run of the lock-discipline system (check / call / limit move outside one '
@@ -1371,7 +1547,7 @@ def conc_judge(ctx, case, obs):
 
 def run_concurrent(ctx, res, big):
     from vlib.sched import explore
-    ncases = ctx.budget(14, 120)
+    ncases = ctx.budget(22, 140)
     seen_sigs = set()
     for _ in range(ncases):
         case = gen_conc_case(ctx.rng)
@@ -1390,6 +1566,8 @@ def run_concurrent(ctx, res, big):
             res.evaluations += 1
             res.traces += 1
             res.count('concurrent.schedules')
+            for how in obs['via']:
+                res.count('concurrent.value-came-by.' + how)
             res.count('concurrent.driver-calls', len(obs['calls']))
             if any(e[0] == 'move' for e in obs['events']) and obs['calls']:
                 res.nontriv(['conc', case, prefix])
@@ -1399,8 +1577,6 @@ def run_concurrent(ctx, res, big):
                 seen_sigs.add(bad[0])
                 res.violations.append({'sig': bad[0], 'what': bad[1],
                                        'case': {'concurrent': case, 'schedule': prefix}})
-            if bad and bad[0].endswith('call-outside-current-limits'):
-                break
 
 
 # ----------------------------------------------------------------------------------------
@@ -1979,7 +2155,14 @@ def model_and_judge(ctx, rec):
 
 
 def compare(model_out, rec):
-    """first step at which model and implementation differ through obs, or None"""
+    """first step at which model and implementation differ through obs, or None; before the first step: the chain of check
+    functions the model computes from the class layout against the one the real write wrapper runs"""
+    impl = {(m['name'], a['attr']): a.get('implChain') for m in rec['node']['modules'] for a in m['accs'] if a['kind'] == 'param'}
+    for m, attr, chain in model_out.get('chains', []):
+        ic = impl.get((m, attr))
+        if ic is not None and ic != chain:
+            return {'step': 0, 'field': 'check-chain', 'model': [m, attr, chain], 'impl': [m, attr, ic],
+                    'req': rec['steps'][0]['req'] if rec['steps'] else None, 'pyclass': None}
     for i, (mo, st) in enumerate(zip(model_out['outs'], rec['steps'])):
         io = st['obs']
         for key in ('reply', 'calls', 'emits', 'after'):
@@ -1992,6 +2175,25 @@ def compare(model_out, rec):
 
 def _diff_rows(a, b):
     return [r for r in a if r not in b][:4]
+
+
+def layout_class(lay):
+    """distribution key of a class layout (MRO order, [min, max, limits, own check] per class)"""
+    decl = [i for i, l in enumerate(lay) if any(l[:3])]
+    own = [i for i, l in enumerate(lay) if l[3]]
+    if not decl:
+        return 'hooks-only(%d)' % min(len(own), 3)
+    first = max(decl)       # (one of) the classes defining a limit parameter first
+    if not own:
+        return 'limits-only' + ('(a limit declared again by a derived class)' if any(
+            sum(1 for l in lay if l[k]) > 1 for k in range(3)) else '')
+    if any(lay[i][3] for i in decl):
+        return 'limits+hook:class-with-limit-defines-own-check'
+    if all(o > d for o in own for d in decl):
+        return 'limits+hook:limit-introduced-above-inherited-hook'
+    if all(o < first for o in own):
+        return 'limits+hook:hook-in-derived-class'
+    return 'limits+hook:hooks-on-both-sides'
 
 
 def classify(st):
@@ -2016,7 +2218,7 @@ def sig_of(rec, idx, why):
 
 def run(ctx):
     res = Result()
-    res.rule = ('generated nodes (1-3 modules, two class layers, parameters of all datatypes with readonly/constant/export '
+    res.rule = ('generated nodes (1-3 modules, class hierarchies of 2-4 classes incl. plain mixins, parameters of all datatypes with readonly/constant/export '
                 'flags, Limit parameters, check_ hook chains, commands with/without argument/result, cfg overrides) x '
                 'request histories of 10-40 (thorough 10-80) change/do/read requests with scripted drivers; one evaluation '
                 '= one request; non-trivial = a history in which at least one change reached the driver, one was refused '
@@ -2073,6 +2275,12 @@ def run(ctx):
                     res.count('driver.called.' + st['req'][0])
                 if st['req'][0] == 'change' and (st['req'][1] or '').endswith('_limits'):
                     res.count('limits-pair.' + (st['obs']['reply'][0] if st['obs']['reply'][0] != 'error' else st['obs']['reply'][1]))
+            for mj in rec['node']['modules']:
+                for a in mj['accs']:
+                    lay = a.get('layers') if a['kind'] == 'param' else None
+                    if not lay or not any(any(l) for l in lay):
+                        continue
+                    res.count('layout.' + layout_class(lay))
             limit_used = bool(rec['oracle']['le']) or bool(rec['oracle']['chk'])
             res.count('oracle.limit-comparisons', len(rec['oracle']['le']))
             res.count('oracle.limit-comparisons.false', sum(1 for r in rec['oracle']['le'] if r[-1] is False))
@@ -2093,6 +2301,13 @@ def run(ctx):
                         res.samples.append({'req': st['req'], 'reply': st['obs']['reply'], 'calls': st['obs']['calls'],
                                             'emits': st['obs']['emits']})
                         break
+            # the hypothesis of the theorems (Node.WF), decided by the driver for this very node (wf_of_wfB)
+            if model.get('wf') is False:
+                res.count('node.NOT-well-formed(theorems do not speak about it)')
+                if len(res.notes) < 5:
+                    res.notes.append('generated node of case %s does not satisfy Node.WF' % case['seed'])
+            else:
+                res.count('node.well-formed(Node.WF decided in Lean)')
             if ctx.model_ok:
                 d = compare(model, rec)
                 if d is not None:
@@ -2196,7 +2411,7 @@ def replay(ctx, rp):
         s, obs = conc_run(c['concurrent'], ReplayThenDefault(c['schedule']))
         print('case    :', c['concurrent'])
         print('events  :', obs['events'])
-        print('calls (value, target_max at that moment):', obs['calls'])
+        print('calls (value, target_max at that moment, how the value came in):', obs['calls'])
         print('replies :', obs['replies'])
         bad = conc_judge(ctx, c['concurrent'], obs)
         print('judge   :', bad)
